@@ -133,6 +133,37 @@ Theorem C03_no_sharing_needs_distinct_classes :
 Proof. exact c03u_needs_distinct_classes. Qed.
 Print Assumptions C03_no_sharing_needs_distinct_classes.
 
+(* ... and COMPLETE there too: without sharing providers the code model returns EXACTLY the specification's combinations
+   (mutual inclusion up to same_creq), whether or not the query has the unsuffixed group.  Hypotheses: those of
+   C03_no_sharing_sound plus anchors_hyp (as for C03_suffixed_only_exact; still needed with the unsuffixed group:
+   C03_no_sharing_complete_needs_roots_parentless, on an unreachable table).  No incompleteness of the code was found on
+   this fragment: de-duplication, exclude_nested_providers below 1.29, in_tree, required traits spread over a tree with
+   forbidden ones, member_of / forbidden aggregates through the root are all matched by the specification. *)
+From PV Require Import Proofs.C03v.
+Theorem C03_no_sharing_exact : forall v q d a s,
+  rps_wf d -> no_sharing d -> parentless_root d -> caps_nonneg d -> un_rcs_nodup q -> anchors_hyp q d ->
+  candidates v q d = COk a s ->
+  (forall c, In c a -> exists c', In c' (map (creq_view v) (spec_candidates v q d)) /\ same_creq c c' = true) /\
+  (forall c', In c' (map (creq_view v) (spec_candidates v q d)) -> exists c, In c a /\ same_creq c c' = true).
+Proof. exact c03_no_sharing_exact. Qed.
+Print Assumptions C03_no_sharing_exact.
+
+(* ... so, with C03_no_sharing_answers: an error status, or verdict 0 ("same candidates") of the three-way comparison *)
+Theorem C03_no_sharing_verdict : forall v q d,
+  rps_wf d -> no_sharing d -> parentless_root d -> caps_nonneg d -> un_rcs_nodup q -> anchors_hyp q d ->
+  (exists e, candidates v q d = CErr e) \/ spec_check v (candidates v q d) (spec_candidates v q d) = 0.
+Proof. exact c03_no_sharing_verdict. Qed.
+Print Assumptions C03_no_sharing_verdict.
+
+Theorem C03_no_sharing_complete_needs_roots_parentless :
+  exists v q d,
+    rps_wf d /\ no_sharing d /\ parentless_root d /\ caps_nonneg d /\ un_rcs_nodup q /\ unsuffixed_group q <> None /\
+    ~ Forest d /\
+    candidates v q d = COk [] [] /\
+    map (creq_view v) (spec_candidates v q d) = [mkCreq (-1) [mkRreq 1 0 1] [(0, [1])]].
+Proof. exact c03u_complete_needs_roots_parentless. Qed.
+Print Assumptions C03_no_sharing_complete_needs_roots_parentless.
+
 (* REFUTED: the faithful model omits valid candidates *)
 (* 1. a sharing provider reachable from several anchors: the per-group result is a SET of allocation requests
       whose equality ignores the anchor, so one anchor survives and merges under the others are lost *)
